@@ -331,7 +331,18 @@ def run_case(scn: dict, sched: Optional[dict] = None, want_world: bool = False) 
                                            err=f"{type(e).__name__}: {e}"[:200])
                             loop.create_task(call())
                         loop.call_at(inj["tau"], fire)
-                    world.run(**rkw)
+                    try:
+                        world.run(**rkw)
+                    except Exception as e1:  # noqa: BLE001
+                        if sched.get("run_again_after_scenario_error") and type(e1).__name__ == "ScenarioError":
+                            # C06: the same world, run() called a second time after the rejection
+                            trace["second_run_events_from"] = len(rec.events)
+                            try:
+                                world.run(**rkw)
+                                trace["second_outcome"] = {"kind": "ok"}
+                            except BaseException as e2:  # noqa: BLE001
+                                trace["second_outcome"] = {"kind": "error", "type": type(e2).__name__, "msg": str(e2)[:300]}
+                        raise
                     trace["outcome"] = {"kind": "ok"}
             except BaseException as e:  # noqa: BLE001
                 if isinstance(e, (KeyboardInterrupt,)):
